@@ -60,6 +60,8 @@ type FnCtx struct {
 	havocAllSeen  bool
 	ghostDefs     map[string]bool
 	nq            int
+	poolVals      map[string]bool
+	immut         map[string]bool // heap names of immutable globals
 	nonNil        map[string]bool
 	cellSeq       map[string]int
 	curBlock      *ssa.BasicBlock
@@ -235,6 +237,7 @@ func (fc *FnCtx) newRef(st *State, hint string) string {
 	a := fc.alloc(st)
 	fc.sc.assume(tAnd(sx(">", r, "0"), tNot(tSel(a, r))))
 	st.heap["Alloc"] = fc.nameTerm("alloc", "(Array Int Bool)", tStore(a, r, "true"))
+	fc.nonNil[r] = true
 	return r
 }
 
@@ -280,9 +283,14 @@ func (fc *FnCtx) load(st *State, a *Addr) Val {
 	}
 	base, idx := fc.addrBase(a)
 	v := buildVal(a.T, "", func(suffix, sort string, t types.Type) string {
-		return fc.loadLoc(st, loc{name: base + suffix, idx: idx, sort: sort, t: t})
+		return fc.loadLoc(st, loc{name: lname(base, suffix), idx: idx, sort: sort, t: t})
 	})
 	fc.sc.assume(fc.typeInv(st, v))
+	if a.Kind == AGlobal && len(a.Path) == 0 && v.K == KIface && fc.eng.initStored[a.Global] && !fc.eng.mutableGlobal[a.Global] {
+		// A-INIT: package initialisers ran; sentinel values are non-nil and pairwise distinct
+		fc.assumption("A-INIT: package-level sentinel values are initialised, non-nil and pairwise distinct")
+		fc.sc.assume(tAnd(tNot(tEq(v.Tag, "0")), tEq(v.S, num(int64(tagID("global:"+a.Global.String()))))))
+	}
 	return v
 }
 
@@ -306,7 +314,7 @@ func (fc *FnCtx) store(st *State, a *Addr, v Val) {
 	}
 	base, idx := fc.addrBase(a)
 	walkVal(fc.storable(v), "", func(suffix, sort, term string, t types.Type) {
-		fc.storeLoc(st, loc{name: base + suffix, idx: idx, sort: sort, t: t}, term)
+		fc.storeLoc(st, loc{name: lname(base, suffix), idx: idx, sort: sort, t: t}, term)
 	})
 }
 
@@ -330,6 +338,10 @@ func (fc *FnCtx) storable(v Val) Val {
 				unsup("interior pointer stored in heap")
 			}
 		case AOpaque:
+		case AElem:
+			if v.A.Idx != "" {
+				unsup("element pointer stored in heap")
+			}
 		default:
 			unsup("non-object pointer stored in heap (kind %d)", v.A.Kind)
 		}
@@ -858,8 +870,10 @@ func (fc *FnCtx) havocAll(st *State) {
 	old := fc.alloc(st)
 	keep := map[string]string{}
 	for _, n := range sortedKeys(st.heap) {
-		if fc.eng.immutableHeap(n) {
-			keep[n] = st.heap[n]
+		for p := range fc.immut {
+			if strings.HasPrefix(n, p) {
+				keep[n] = st.heap[n]
+			}
 		}
 	}
 	// every name, touched or not, gets a new initial value: new epoch.
